@@ -20,8 +20,26 @@
 #include <algorithm>
 using namespace muscle;
 
-struct BadHash {
-   uint32 operator()(const int & k) const {return ((k >= -1)&&(k < 1000)) ? 12345u : (((uint32) k)*2654435761u);}
+// Keys of the model are 1..K; the real key is model key + KOFF (order preserving).  KOFF = 1621770656 makes model key 2 the int whose
+// default hash code (CalculateHashCode of its 4 bytes) is exactly 0xFFFFFFFF = MUSCLE_HASHTABLE_INVALID_HASH_CODE, the table's guard value.
+static int KOFF = 0;
+static inline int RK(long m) {return (m > 0) ? (int)(m+KOFF) : (int) m;}
+static inline long MK(int k) {return (k > 0) ? ((long) k)-KOFF : (long) k;}
+struct BadHash {     // every key of the model in one bucket, together with the last entry of the prefill block
+   uint32 operator()(const int & k) const {return (k >= -1) ? 12345u : (((uint32) k)*2654435761u);}
+   bool AreKeysEqual(const int & a, const int & b) const {return a == b;}
+};
+struct EdgeHash {    // boundary hash codes by construction: the guard value 0xFFFFFFFF (remapped to 0 by the table), 0, 0xFFFFFFFE, 1 - some shared
+   uint32 operator()(const int & k) const
+   {
+      static const uint32 T[7] = {0u, 0xFFFFFFFFu, 0u, 0xFFFFFFFEu, 1u, 0xFFFFFFFFu, 0xFFFFFFFEu};
+      if (k > 0) return T[MK(k)%7];
+      return (k == -1) ? 0xFFFFFFFFu : ((k == -2) ? 0u : ((k == -3) ? 0xFFFFFFFEu : (((uint32) k)*2654435761u)));
+   }
+   bool AreKeysEqual(const int & a, const int & b) const {return a == b;}
+};
+struct ModHash {     // distinct hash codes that collide modulo every small table size (840 = lcm(1..8)) and modulo 2^k
+   uint32 operator()(const int & k) const {return (k > 0) ? ((uint32) MK(k))*840u*65536u : (((uint32) k)*2654435761u);}
    bool AreKeysEqual(const int & a, const int & b) const {return a == b;}
 };
 
@@ -98,7 +116,7 @@ template<class TableT, class HashF> struct Rig
 
    long Exec(int op, long a, long b, long c)
    {
-      TableT & t = *tab[0]; TableT & o = *tab[1]; const int ka = (int) a; const long p0 = (long) P0();
+      TableT & t = *tab[0]; TableT & o = *tab[1]; const int ka = RK(a); const long p0 = (long) P0();
       switch(op) {
          case O_Put: return t.Put(ka, (int) b).IsOK() ? 1 : NA;
          case O_PutPrev: {int prev = 0; bool rep = false; if (t.Put(ka, (int) b, prev, &rep).IsError()) return NA; return rep ? prev : 0;}
@@ -107,19 +125,19 @@ template<class TableT, class HashF> struct Rig
          case O_PutOrRemove: return t.PutOrRemove(ka, (int) b).IsOK() ? 1 : NA;
          case O_PutAtFront: return t.PutAtFront(ka, (int) b).IsOK() ? 1 : NA;
          case O_PutAtBack: return t.PutAtBack(ka, (int) b).IsOK() ? 1 : NA;
-         case O_PutBefore: {const int kb = (int) b; return t.PutBefore(ka, kb, (int) c).IsOK() ? 1 : NA;}
-         case O_PutBehind: {const int kb = (int) b; return t.PutBehind(ka, kb, (int) c).IsOK() ? 1 : NA;}
+         case O_PutBefore: {const int kb = RK(b); return t.PutBefore(ka, kb, (int) c).IsOK() ? 1 : NA;}
+         case O_PutBehind: {const int kb = RK(b); return t.PutBehind(ka, kb, (int) c).IsOK() ? 1 : NA;}
          case O_PutAtPosition: return t.PutAtPosition(ka, (uint32)(p0+b), (int) c).IsOK() ? 1 : NA;
          case O_GetAndMoveToFront: {int v = 0; const status_t r = t.GetAndMoveToFront(ka, v); return r.IsOK() ? v : ((r == B_DATA_NOT_FOUND) ? 0 : NA);}
          case O_GetAndMoveToBack:  {int v = 0; const status_t r = t.GetAndMoveToBack(ka, v);  return r.IsOK() ? v : ((r == B_DATA_NOT_FOUND) ? 0 : NA);}
          case O_Remove: return St(t.Remove(ka));
          case O_RemoveGet: {int v = 0; const status_t r = t.Remove(ka, v); return r.IsOK() ? v : ((r == B_DATA_NOT_FOUND) ? 0 : NA);}
-         case O_RemoveFirst: {int k = 0; const status_t r = t.RemoveFirst(k); return r.IsOK() ? k : ((r == B_DATA_NOT_FOUND) ? 0 : NA);}
-         case O_RemoveLast: {if ((blk[0])&&(t.GetNumItems() == P)) return 0; int k = 0; const status_t r = t.RemoveLast(k); return r.IsOK() ? k : ((r == B_DATA_NOT_FOUND) ? 0 : NA);}
+         case O_RemoveFirst: {int k = 0; const status_t r = t.RemoveFirst(k); return r.IsOK() ? MK(k) : ((r == B_DATA_NOT_FOUND) ? 0 : NA);}
+         case O_RemoveLast: {if ((blk[0])&&(t.GetNumItems() == P)) return 0; int k = 0; const status_t r = t.RemoveLast(k); return r.IsOK() ? MK(k) : ((r == B_DATA_NOT_FOUND) ? 0 : NA);}
          case O_MoveToFront: return St(t.MoveToFront(ka));
          case O_MoveToBack: return St(t.MoveToBack(ka));
-         case O_MoveToBefore: return St(t.MoveToBefore(ka, (int) b));
-         case O_MoveToBehind: return St(t.MoveToBehind(ka, (int) b));
+         case O_MoveToBefore: return St(t.MoveToBefore(ka, RK(b)));
+         case O_MoveToBehind: return St(t.MoveToBehind(ka, RK(b)));
          case O_MoveToPosition: return St(t.MoveToPosition(ka, (uint32)(p0+b)));
          case O_SortByKey: t.SortByKey(); return 0;
          case O_SortByValue: t.SortByValue(); return 0;
@@ -140,19 +158,19 @@ template<class TableT, class HashF> struct Rig
          case O_Get: {const int * v = t.Get(ka); const long r = t.GetWithDefault(ka); if ((v != NULL) != t.ContainsKey(ka)) err = "Get / ContainsKey disagree"; if ((v)&&(*v != r)) err = "Get / GetWithDefault disagree"; return r;}
          case O_IndexOfKey: {const long r = t.IndexOfKey(ka); return (r >= 0) ? (r-p0) : r;}
          case O_IndexOfValue: {const long r = t.IndexOfValue((int) a, b != 0); return (r >= 0) ? (r-p0) : r;}
-         case O_GetKeyAt: {const int * k = t.GetKeyAt((uint32)(p0+a)); return k ? *k : 0;}
+         case O_GetKeyAt: {const int * k = t.GetKeyAt((uint32)(p0+a)); return k ? MK(*k) : 0;}
          case O_GetValueAt: {const int * v = t.GetValueAt((uint32)(p0+a)); return v ? *v : 0;}
-         case O_GetFirstKey: {const int * k = t.GetFirstKey(); return k ? *k : 0;}
-         case O_GetLastKey: {const int * k = t.GetLastKey(); return k ? Neg0(*k) : 0;}
-         case O_GetKeyBefore: {const int * k = t.GetKeyBefore(ka); return k ? Neg0(*k) : 0;}
-         case O_GetKeyAfter: {const int * k = t.GetKeyAfter(ka); return k ? *k : 0;}
+         case O_GetFirstKey: {const int * k = t.GetFirstKey(); return k ? MK(*k) : 0;}
+         case O_GetLastKey: {const int * k = t.GetLastKey(); return k ? MK((int) Neg0(*k)) : 0;}
+         case O_GetKeyBefore: {const int * k = t.GetKeyBefore(ka); return k ? MK((int) Neg0(*k)) : 0;}
+         case O_GetKeyAfter: {const int * k = t.GetKeyAfter(ka); return k ? MK(*k) : 0;}
          case O_ContainsValue: return t.ContainsValue((int) a) ? 1 : 0;
          case O_NumItems: return ((long) t.GetNumItems())-p0;
          case O_IsEqualTo: return t.IsEqualTo(o, a != 0) ? 1 : 0;
          case O_ItNew: {It * n = new It(t, (b != 0) ? HTIT_FLAG_BACKWARDS : 0); it[a-1] = n; itBwd[a-1] = (b != 0);
                         if ((b == 0)&&(blk[0])) for (uint32 i=0; i<P; i++) {if ((!n->HasData())||(n->GetKey() != ((int) i)-((int) P))) {err = "forward iterator does not walk the prefill block in order"; break;} (*n)++;}
                         return 0;}
-         case O_ItNewAt: it[a-1] = new It(t, (int) b, (c != 0) ? HTIT_FLAG_BACKWARDS : 0); itBwd[a-1] = (c != 0); return 0;
+         case O_ItNewAt: it[a-1] = new It(t, RK(b), (c != 0) ? HTIT_FLAG_BACKWARDS : 0); itBwd[a-1] = (c != 0); return 0;
          case O_ItAdv: (*it[a-1])++; return 0;
          case O_ItRet: (*it[a-1])--; itBwd[a-1] = true; return 0;
          case O_ItFlip: it[a-1]->SetBackwards(!it[a-1]->IsBackwards()); itBwd[a-1] = true; return 0;
@@ -174,11 +192,11 @@ template<class TableT, class HashF> struct Rig
          f = HashtableIterator<int,int,HashF>(t, HTIT_FLAG_NOREGISTER);
          if (B) for (uint32 i=0; i<P; i++) {if ((!f.HasData())||(f.GetKey() != ((int) i)-((int) P))||(f.GetValue() != f.GetKey())) {snprintf(buf, sizeof(buf), "prefill block damaged at its entry %u (forward)", i); err = buf; return false;} f++;}
       }
-      for (; f.HasData(); f++) {if (out.size() > 1000) {err = "forward iteration does not end"; return false;} out.push_back(std::make_pair(f.GetKey(), f.GetValue()));}
+      for (; f.HasData(); f++) {if (out.size() > 1000) {err = "forward iteration does not end"; return false;} out.push_back(std::make_pair((int) MK(f.GetKey()), f.GetValue()));}
       if (t.GetNumItems() != out.size()+(B ? P : 0)) {snprintf(buf, sizeof(buf), "GetNumItems() = %u but forward iteration finds %zu", t.GetNumItems(), out.size()+(B ? P : 0)); err = buf; return false;}
       size_t i = out.size();
       HashtableIterator<int,int,HashF> r(t, HTIT_FLAG_NOREGISTER|HTIT_FLAG_BACKWARDS);
-      for (; (r.HasData())&&(i > 0); r++) {i--; if ((r.GetKey() != out[i].first)||(r.GetValue() != out[i].second)) {snprintf(buf, sizeof(buf), "backward iteration differs from forward iteration at index %zu (%d vs %d)", i, r.GetKey(), out[i].first); err = buf; return false;}}
+      for (; (r.HasData())&&(i > 0); r++) {i--; if ((MK(r.GetKey()) != out[i].first)||(r.GetValue() != out[i].second)) {snprintf(buf, sizeof(buf), "backward iteration differs from forward iteration at index %zu (%ld vs %d)", i, MK(r.GetKey()), out[i].first); err = buf; return false;}}
       if (i > 0) {err = "backward iteration ends early"; return false;}
       if (B) {
          const uint32 lim = full ? P : 1;
@@ -193,7 +211,7 @@ template<class TableT, class HashF> struct Rig
    {
       ItObs o; if (it[i] == NULL) return o;
       if (!it[i]->HasData()) {o.h = 0; return o;}
-      o.h = 1; o.k = it[i]->GetKey(); o.v = it[i]->GetValue();
+      o.h = 1; o.k = (int) MK(it[i]->GetKey()); o.v = it[i]->GetValue();
       if ((o.k < 0)&&(itBwd[i])) {o.h = 0; o.k = o.v = 0;}   // parked inside the prefill block = past the head of the model's table
       return o;
    }
